@@ -8,10 +8,11 @@ CONSTANTS
   PruneBatch = 99
   L2PerPrune = 1
   MinAge = TRUE
-  MaxSteps = 7
+  MaxSteps = 8
   EnableRevert = TRUE
   EnableInterrupts = TRUE
   FixPruneAtomicFloor = TRUE
+  FixSampleOnReorg = TRUE
 INIT Init
 NEXT Next
 VIEW view
